@@ -475,6 +475,10 @@ func ruleC12Panic(p *Program, r *Run) {
 				r.Pass("C12/panic", fn+" (generated by stringer)", p.Pos(fd.Pos()), "generated code, exempt as a unit: its table lookups are guarded by the range checks stringer emits and compile-time assertions pin the constant values")
 				continue
 			}
+			if fobj := FuncObj(pkg, fd); fobj != nil && !p.reachableFromAPI()[fobj] {
+				r.Note("C12/panic: %s is not reachable from Scan, SplitStatements, Parse, Walk or Compile and is outside this property", fn)
+				continue
+			}
 			r.Saw(fn)
 			u := &unit{pkg: pkg, fd: fd, fn: fn}
 			units = append(units, u)
@@ -650,75 +654,42 @@ func ruleC12Support(p *Program, r *Run) {
 		}
 	}
 	r.Floor("C12/nonempty", 4)
-	// C12/post: splitQueries returns dst with at least one more element than it was given
+	// C12/post: splitQueries (and any helper of the same shape it hands its list to) returns the list with at least
+	// one more element than it was given. Decided on path facts at every successful return: the list was appended
+	// to on this path (or replaced by the result of a function of the same shape called with it), or it is known
+	// to differ in length from the length saved at entry while every assignment to it only makes it longer.
 	sq := p.MustFunc(p.PQL, "splitQueries")
 	info := p.PQL.TypesInfo
-	okPost := false
-	var lastIf *ast.IfStmt
-	for _, s := range sq.Body.List {
-		if ifs, ok := s.(*ast.IfStmt); ok {
-			lastIf = ifs
+	growers := map[*types.Func]*ast.FuncDecl{}
+	sqSig := FuncObj(p.PQL, sq).Type().(*types.Signature)
+	for _, fd := range AllFuncs(p.PQL) {
+		fn := FuncObj(p.PQL, fd)
+		sig := fn.Type().(*types.Signature)
+		if sig.Params().Len() > 0 && sig.Results().Len() == 2 && types.Identical(sig.Params().At(0).Type(), sqSig.Params().At(0).Type()) &&
+			types.Identical(sig.Results().At(0).Type(), sqSig.Results().At(0).Type()) && TypeStr(sig.Results().At(1).Type()) == "error" {
+			growers[fn] = fd
 		}
 	}
-	if lastIf != nil {
-		if b, ok := ast.Unparen(lastIf.Cond).(*ast.BinaryExpr); ok && b.Op == token.EQL {
-			if call, ok := ast.Unparen(b.X).(*ast.CallExpr); ok && IsBuiltinCall(info, call, "len") {
-				// body appends to the same slice; the statement after is `return dst, nil`
-				appended := false
-				ast.Inspect(lastIf.Body, func(n ast.Node) bool {
-					if as, ok := n.(*ast.AssignStmt); ok && len(as.Rhs) == 1 {
-						if c2, ok := as.Rhs[0].(*ast.CallExpr); ok && IsBuiltinCall(info, c2, "append") && sameExpr(info, c2.Args[0], call.Args[0]) && sameExpr(info, as.Lhs[0], call.Args[0]) {
-							appended = true
-						}
-					}
-					return true
-				})
-				// the compared value is len(dst) saved at entry
-				saved := false
-				if o := objOf(info, b.Y); o != nil {
-					if as, ok := sq.Body.List[0].(*ast.AssignStmt); ok && objOf(info, as.Lhs[0]) == o {
-						if c0, ok := as.Rhs[0].(*ast.CallExpr); ok && IsBuiltinCall(info, c0, "len") && sameExpr(info, c0.Args[0], call.Args[0]) {
-							saved = true
-						}
-					}
-				}
-				if ret, ok := sq.Body.List[len(sq.Body.List)-1].(*ast.ReturnStmt); ok && len(ret.Results) == 2 && sameExpr(info, ret.Results[0], call.Args[0]) && appended && saved {
-					okPost = true
-				}
-			}
+	okPost, postWhy := true, ""
+	for fn, fd := range growers {
+		if fn != FuncObj(p.PQL, sq) && !p.callsAny(sq, map[*types.Func]bool{fn: true}) {
+			continue
+		}
+		pc := &postClient{growers: growers, list: info.Defs[fd.Type.Params.List[0].Names[0]]}
+		pe := NewEngine(p, p.PQL, fd, pc)
+		pe.Run(nil)
+		if len(pe.Errs) > 0 {
+			okPost, postWhy = false, strings.Join(pe.Errs, "; ")
+		}
+		if pc.bad != "" {
+			okPost, postWhy = false, FuncName(p.PQL, fd)+": "+pc.bad
+		}
+		if pc.returns == 0 {
+			okPost, postWhy = false, FuncName(p.PQL, fd)+" has no successful return"
 		}
 	}
-	// dst is only ever appended to or replaced by the recursive call's result
-	onlyGrows := true
-	ast.Inspect(sq.Body, func(n ast.Node) bool {
-		as, ok := n.(*ast.AssignStmt)
-		if !ok {
-			return true
-		}
-		for i, l := range as.Lhs {
-			if o := objOf(info, l); o == nil || o != info.Defs[sq.Type.Params.List[0].Names[0]] {
-				continue
-			}
-			rhs := as.Rhs[0]
-			if len(as.Rhs) == len(as.Lhs) {
-				rhs = as.Rhs[i]
-			}
-			call, isCall := ast.Unparen(rhs).(*ast.CallExpr)
-			if !isCall {
-				onlyGrows = false
-				continue
-			}
-			if IsBuiltinCall(info, call, "append") && sameExpr(info, call.Args[0], l) {
-				continue
-			}
-			if Callee(info, call) == FuncObj(p.PQL, sq) && sameExpr(info, call.Args[0], l) {
-				continue
-			}
-			onlyGrows = false
-		}
-		return true
-	})
-	r.Check(okPost && onlyGrows, "C12/post", "pql.splitQueries returns at least one subquery more than it was given", p.Pos(sq.Pos()), "dst only grows and the final `len(dst) == dstStart` guard appends one before `return dst, nil`", "splitQueries can return without having appended a subquery: callers index its last element")
+	_ = info
+	r.Check(okPost, "C12/post", "pql.splitQueries returns at least one subquery more than it was given", p.Pos(sq.Pos()), "at every successful return the list is known to be longer than at entry (appended to on the path, or of a different length than saved at entry while it only ever grows)", "splitQueries can return without having appended a subquery: callers index its last element ("+postWhy+")")
 	// C12/variadic: firstParse is always called with >= 1 production
 	fp := p.MustFunc(p.Parser, "firstParse")
 	fpo := FuncObj(p.Parser, fp)
@@ -738,4 +709,103 @@ func ruleC12Support(p *Program, r *Run) {
 		})
 	}
 	r.Check(okVar && calls > 0, "C12/variadic", "parser.firstParse call sites pass at least one production", p.Pos(fp.Pos()), fmt.Sprintf("%d call sites, each with explicit arguments", calls), "firstParse can be called without productions: productions[len-1] panics")
+}
+
+// postClient: a function (list, ...) -> (list, error) returns a longer list on success.
+type postClient struct {
+	BaseClient
+	growers map[*types.Func]*ast.FuncDecl
+	list    types.Object
+	returns int
+	bad     string
+}
+
+func (c *postClient) PreAssign(e *Engine, st *State, lhs, rhs []ast.Expr, _ ast.Stmt) *State {
+	for i, l := range lhs {
+		if objOf(e.Info, l) != c.list {
+			continue
+		}
+		var r ast.Expr
+		switch {
+		case len(rhs) == len(lhs):
+			r = rhs[i]
+		case len(rhs) == 1:
+			r = rhs[0]
+		}
+		call, ok := ast.Unparen(r).(*ast.CallExpr)
+		grows := false
+		if ok {
+			if IsBuiltinCall(e.Info, call, "append") && len(call.Args) >= 2 && objOf(e.Info, call.Args[0]) == c.list && !call.Ellipsis.IsValid() {
+				grows = true
+			}
+			if f := Callee(e.Info, call); f != nil && c.growers[f] != nil && len(call.Args) > 0 && objOf(e.Info, call.Args[0]) == c.list && i == 0 {
+				grows = true // by the same rule applied to that function
+			}
+		}
+		// a temporary holding such a result: v, err := grower(list, ...); list = v
+		if !grows && r != nil {
+			if f := e.FactOf(st, r); f != nil && hasStr(f.Tags, "grown") {
+				grows = true
+			}
+		}
+		if !grows {
+			if e.Reporting() {
+				c.bad = "the list is assigned from " + exprStr(r) + ", which is not known to make it longer"
+			}
+			return st.WithExt("grown", "")
+		}
+		return st.WithExt("grown", "1")
+	}
+	return nil
+}
+
+// PostCall: the result of a grower called with the list is a longer list.
+func (c *postClient) PostCall(e *Engine, st *State, call *ast.CallExpr, callee *types.Func) *State {
+	if callee == nil || c.growers[callee] == nil || len(call.Args) == 0 || objOf(e.Info, call.Args[0]) != c.list {
+		return nil
+	}
+	ids := e.CallResults(call)
+	if len(ids) != 2 {
+		return nil
+	}
+	k := e.CanonSt(st, ids[0])
+	if !k.OK {
+		return nil
+	}
+	if n := e.update(st.killObj(e.Info.Defs[ids[0]]), k, func(f *Fact) { f.Tags = []string{"grown"} }); n != nil {
+		return n
+	}
+	return nil
+}
+
+func (c *postClient) Return(e *Engine, st *State, ret *ast.ReturnStmt) {
+	if !e.Reporting() || e.Lit != nil || ret == nil || len(ret.Results) != 2 {
+		return
+	}
+	if !isNilIdent(e.Info, ret.Results[1]) && !e.IsNil(st, ret.Results[1]) {
+		return // failure return
+	}
+	c.returns++
+	if call, ok := ast.Unparen(ret.Results[0]).(*ast.CallExpr); ok && IsBuiltinCall(e.Info, call, "append") && len(call.Args) >= 2 && objOf(e.Info, call.Args[0]) == c.list && !call.Ellipsis.IsValid() {
+		return // return append(list, x), nil
+	}
+	if objOf(e.Info, ret.Results[0]) != c.list {
+		if f := e.FactOf(st, ret.Results[0]); f == nil || !hasStr(f.Tags, "grown") {
+			c.bad = "the return at " + e.P.Pos(ret.Pos()) + " gives back something other than the list"
+		}
+		return
+	}
+	if st.Ext("grown") == "1" {
+		return
+	}
+	// the length differs from the one saved at entry (and the list only ever grows)
+	lk := "len(" + e.objKey(c.list) + ")"
+	for _, k := range st.Keys() {
+		if strings.HasPrefix(k, "(") && strings.Contains(k, " == ") && strings.Contains(k, lk) {
+			if f := st.Get(k); f != nil && f.HasEq && f.Eq == "false" {
+				return
+			}
+		}
+	}
+	c.bad = "the return at " + e.P.Pos(ret.Pos()) + " is reached on a path where the list is not known to be longer than at entry"
 }
